@@ -213,13 +213,87 @@ _k2_contribute.frame_args = [6]
 def _pi_params(c):
     n, W, m = c.int('n'), c.int('W'), c.int('m')
     new = c.choice('new_method')
-    contribs = SeqV(m, lambda k: AbsObj('Contribution', to_int(k), {'name': '<contribution>'})) if c.mode != 'conc' else None
-    return dict(self=ObjSpec('TransmissionModel', nLayers=n, deltaz=c.array('dz', (n,)), new_method=new,
-                             altitude_profile=c.array('z', (n,)), contribution_list=contribs, path_length=None,
-                             _planet=ObjSpec('BasePlanet', _radius=c.real('Rp')), _star=ObjSpec('Star', _radius=c.real('Rs')),
-                             _pressure_profile=ObjSpec('PressureProfile', profile=c.array('P', (n,))),
-                             _temperature_profile=ObjSpec('TemperatureProfile', profile=c.array('T', (n,)))),
-                wngrid=c.array('wngrid', (W,)), return_contrib=False)
+    if c.mode != 'conc':
+        contribs = SeqV(m, lambda k: AbsObj('Contribution', to_int(k), {'name': '<contribution>'}))
+    else:
+        contribs = [c.array('sigma%d' % k, (n, W)) for k in range(m)]       # concrete cross-section contributions
+    d = dict(self=ObjSpec('TransmissionModel', nLayers=n, deltaz=c.array('dz', (n,)), new_method=new,
+                          altitude_profile=c.array('z', (n,)), contribution_list=contribs, path_length=None,
+                          _planet=ObjSpec('BasePlanet', _radius=c.real('Rp')), _star=ObjSpec('Star', _radius=c.real('Rs')),
+                          _pressure_profile=ObjSpec('PressureProfile', profile=c.array('P', (n,))),
+                          _temperature_profile=ObjSpec('TemperatureProfile', profile=c.array('T', (n,)))),
+             wngrid=c.array('wngrid', (W,)), return_contrib=False)
+    if c.mode == 'conc':
+        _install_concrete(c, d, m, W)
+    return d
+
+
+def _install_concrete(c, d, m, W):
+    """concrete meaning of the spec functions when replaying: TauC of a cross-section contribution is the K1 sum
+    with the documented chord lengths and the ideal-gas density; Jsat by its defining least-index property"""
+    s = d['self'].attrs
+    n = s['nLayers']
+    v = _PV(self=_PV(_planet=_PV(_radius=s['_planet'].attrs['_radius']), altitude_profile=s['altitude_profile']),
+            dz=s['deltaz'])
+    K = c.constant('KBOLTZ')
+    dens = [s['_pressure_profile'].attrs['profile'][i] / (K * s['_temperature_profile'].attrs['profile'][i])
+            for i in range(n)]
+    sig = s['contribution_list']
+
+    def tauc(cid, l, w):
+        return sum(sig[cid][k + l, w] * chord(c, v, l, k) * dens[k + l] for k in range(n - l))
+
+    def jsat(l):
+        for j in range(m + 1):
+            if j == m or all(sum(tauc(i, l, w) for i in range(j)) > 10 for w in range(W)):
+                return j
+    c.concrete_funcs = {'TauC': tauc, 'Jsat': jsat, 'Sat': lambda j, l: all(sum(tauc(i, l, w) for i in range(j)) > 10
+                                                                           for w in range(W)),
+                        'Wit': lambda j, l: 0}
+
+
+def _pi_native(c, p):
+    import numpy as np
+    from types import SimpleNamespace as NS
+    from taurex.model.transmission import TransmissionModel
+    from taurex.contributions.contribution import Contribution
+    s = p['self']
+
+    class _M(TransmissionModel):
+        nLayers = property(lambda self: self._n)
+        densityProfile = property(lambda self: self._dens)
+    m = _M.__new__(_M)
+    m._n = s['nLayers']
+    m.altitude_profile = np.array(s['altitude_profile'], dtype=float)
+    m.deltaz = np.array(s['deltaz'], dtype=float)
+    m._planet = NS(fullRadius=s['_planet']['_radius'])
+    m._star = NS(radius=s['_star']['_radius'])
+    m._dens = np.array(s['_pressure_profile']['profile']) / (c.constant('KBOLTZ') * np.array(s['_temperature_profile']['profile']))
+    m.new_method = s['new_method']
+    m.debug = lambda *a, **k: None
+    lst = []
+    for sg in s['contribution_list']:
+        cc = Contribution.__new__(Contribution)
+        cc.sigma_xsec = np.array(sg, dtype=float)
+        cc._nlayers, cc._ngrid = sg.shape
+        cc._name = 'x'
+        cc.debug = lambda *a, **k: None
+        lst.append(cc)
+    m.contribution_list = lst
+    a, t = m.path_integral(np.array(p['wngrid'], dtype=float), False)
+    return (a, t), p
+
+
+def _pi_gen(rng):
+    d = _pl_gen(rng)
+    n = d['n']
+    W, m = rng.randint(1, 3), rng.randint(0, 3)
+    d.update(W=W, m=m, Rs=rng.uniform(3e8, 9e8), new_method=False, wngrid=[1000.0 + 10 * i for i in range(W)],
+             P=[10 ** rng.uniform(0, 5) for _ in range(n)], T=[rng.uniform(300, 2000) for _ in range(n)])
+    for k in range(m):
+        # magnitudes chosen so that tau ranges from transparent to saturated, per wavenumber
+        d['sigma%d' % k] = [[10 ** rng.uniform(-32, -24) for _ in range(W)] for _ in range(n)]
+    return d
 
 
 def pi_pre(c, v):
@@ -229,8 +303,7 @@ def pi_pre(c, v):
     d['W'] = c.Len(v.wngrid) >= 1          # tau[layer].min() of an empty row raises
     d['star'] = c.Lt(0, s._star._radius)
     d['profiles'] = c.And(c.Len(s._pressure_profile.profile) == n, c.Len(s._temperature_profile.profile) == n)
-    if c.mode != 'conc':
-        d['m'] = c.Len(s.contribution_list) >= 0
+    d['m'] = c.Len(s.contribution_list) >= 0
     return d
 
 
@@ -250,7 +323,9 @@ def sat_axioms(c, m, W):
     loop of path_integral gets.  Wit is the Skolem function of the negated universal."""
     I, B = z3.IntSort(), z3.BoolSort()
     Sat, Jsat, Wit = c.func('Sat', I, I, B), c.func('Jsat', I, I), c.func('Wit', I, I, I)
-    if 'sat_axioms' in c.uf:
+    if c.mode != 'conc' and 'sat_axioms' in c.uf:
+        return Sat, Jsat
+    if c.mode == 'conc':
         return Sat, Jsat
     c.uf['sat_axioms'] = True
     j, l, w = z3.Ints('j? l? w?')
@@ -313,14 +388,68 @@ def pi_post(c, v0, v1, r):
     return {'shapes': c.And(c.Len(r[0]) == W, c.Shape(r[1])[0] == n, c.Shape(r[1])[1] == W),
             'depth': c.Forall(0, W, lambda w: c.Eq(r[0][w], depthT(c, v0, r[1], w))),
             # Jsat(l): whole list (== m) unless an earlier prefix already saturates the layer (axioms above)
-            'rows': c.Forall2((0, n), (0, W), lambda l, w: r[1][l, w] == c.exp(-Srow(c, sat_axioms(c, m, W)[1](l), l, w)))}
+            'rows': c.Forall2((0, n), (0, W), lambda l, w: c.Eq(r[1][l, w], c.exp(-Srow(c, sat_axioms(c, m, W)[1](l), l, w))))}
 
 
 PI = Unit(['C01', 'C03', 'C13', 'C19'], TM + 'path_integral', _pi_params, pre=pi_pre, post=pi_post,
           invariants={0: pi_inv0, 1: pi_inv1}, abstract={'Contribution.contribute': _k2_contribute},
           cases=[{'new_method': False}], inline=['altitudeProfile', 'fullRadius', 'radius'],
           frame_attrs=[('self', 'path_length')], short='TransmissionModel.path_integral', timeout_ms=20000,
+          native=_pi_native, gen=_pi_gen,
           doc='per layer: tau = sum over the contribution list (or over a saturated prefix) of the abstract '
               'increments TauC(c, layer, w); off-by-one call-site obligations against K1; then compute_absorption. '
-              'Symbolic, no native replay of its own (the replay of the model level is the bounded item '
-              'transmission_model_vs_integral).')
+              'Replayed natively on a real TransmissionModel with cross-section contributions.')
+
+
+# ------------------------------------------------------------------ lemmas: consequences stated in the property
+def _depth_lemmas(c):
+    """with a_l = 2 (Rp+z_l) dz_l >= 0 and optical depths T_l >= 0:
+    bare planet <= depth <= opaque-to-the-top; no absorber => bare planet; larger optical depths => larger depth"""
+    I, R = z3.IntSort(), z3.RealSort()
+    a, T, T2 = z3.Function('a', I, R), z3.Function('T', I, R), z3.Function('T2', I, R)
+    m, n, q = z3.Ints('m n q')
+    pos = z3.ForAll([q], z3.And(a(q) >= 0, T(q) >= 0, T2(q) >= T(q)))
+
+    def S(k, F):
+        return c.Sum(0, k, lambda l: a(l) * (1.0 - c.exp(-F(l))))
+
+    def A(k):
+        return c.Sum(0, k, lambda l: a(l))
+
+    def P(k):
+        return z3.And(S(k, T) >= 0, S(k, T) <= A(k), S(k, T2) >= S(k, T))
+    step_h = [z3.And(c.exp(-T(m)) > 0, c.exp(-T(m)) <= 1, c.exp(-T2(m)) <= c.exp(-T(m))),
+              z3.And(a(m) * (1.0 - c.exp(-T(m))) >= 0, a(m) * (1.0 - c.exp(-T(m))) <= a(m),
+                     a(m) * (1.0 - c.exp(-T2(m))) >= a(m) * (1.0 - c.exp(-T(m))))]
+    mm = z3.Int('mm')
+    Rp, Rs = z3.Reals('Rp Rs')
+    allP = z3.ForAll([mm], z3.Implies(mm >= 0, P(mm)))
+    D = lambda F: (Rp * Rp + S(n, F)) / (Rs * Rs)
+    zero = z3.ForAll([q], T(q) == 0)
+    Z = lambda k: S(k, T) == 0
+    return [('bounds.base', [pos], P(0)),
+            ('bounds.step', [pos, m >= 0, P(m)], c.hint(P(m + 1), *step_h)),
+            ('bare_planet_lower', [allP, n >= 0, Rs > 0], D(T) >= Rp * Rp / (Rs * Rs)),
+            ('opaque_upper', [allP, n >= 0, Rs > 0], D(T) <= (Rp * Rp + A(n)) / (Rs * Rs)),
+            ('monotone', [allP, n >= 0, Rs > 0], D(T2) >= D(T)),
+            ('transparent.base', [zero], Z(0)),
+            ('transparent.step', [zero, m >= 0, Z(m)], c.hint(Z(m + 1), c.exp(-T(m)) == 1)),
+            ('transparent', [z3.ForAll([mm], z3.Implies(mm >= 0, Z(mm))), n >= 0, Rs > 0], D(T) == Rp * Rp / (Rs * Rs))]
+
+
+Lemma('C01', 'depth_bounds_and_monotonicity', _depth_lemmas,
+      doc='induction over layers on the documented integral (ground exp axioms): >= (Rp/Rs)^2, <= opaque value, '
+          '= (Rp/Rs)^2 when nothing absorbs, non-decreasing in the optical depths')
+
+
+def _tau_nonneg(c):
+    """a row of tau that is a sum of non-negative increments is non-negative and non-decreasing in the prefix"""
+    I, R = z3.IntSort(), z3.RealSort()
+    t = z3.Function('t', I, R)
+    m, q = z3.Ints('m q')
+    S = lambda k: c.Sum(0, k, lambda i: t(i))
+    pos = z3.ForAll([q], t(q) >= 0)
+    return [('base', [pos], S(0) >= 0), ('step', [pos, m >= 0, S(m) >= 0], z3.And(S(m + 1) >= 0, S(m + 1) >= S(m)))]
+
+
+Lemma('C01', 'optical_depth_nonnegative', _tau_nonneg, doc='sum of non-negative K2 increments')
